@@ -104,6 +104,9 @@ def law_tensordot(ch):
     for mode in ("auto", "fused", "blockwise"):
         sig = f"tensordot[{mode}]"
         kw = {"mode": mode, "preserve_array": preserve}
+        if not preserve and mode != "fused":
+            # the documented default is preserve_array=False: leave it out
+            del kw["preserve_array"]
         if disp == "sr":
             res = must(sr.tensordot, a, b, axes_arg, what=sig, **kw)
         else:
